@@ -245,12 +245,12 @@ func init() {
 		note:    "partial: GetReplacement is the two-level map lookup; methodData looks every parameter and result up under exactly (package path, name) of its own named or alias type and hands that replacement to AddVar for that variable only; AddVar with a replacement uses the type found in the loaded package and records only the replacement's package for the variable, without one it uses the variable's type and the imports of that type; inheritance of replace-type across levels is mergeConfigs' typed-map postcondition (C08). Rendering and compilation of the result are not covered.",
 	})
 	register(&propInfo{
-		id: "C14", patterns: []string{"./internal", "./template"},
+		id: "C14", patterns: []string{"./internal", "./template", "./template_funcs"},
 		trusted: genTrusted,
 		note:    "lemma-level: methodData (one Method with the method's name; parameters and results in signature order, bound to the signature's variables, variadic flag only on the last parameter of a variadic signature), typeParams (one entry per type parameter, in order, with its constraint), Generate (one Method per method of the looked-up interface, in order), ResolveVariableNameCollisions (names pairwise distinct and none equal to a name visible before: qualifiers, type strings), varName (generated names are not keywords, predeclared types or template identifiers), AddVar (type string reserved as a name); the list accessors of the data model (Method.ArgList, ArgTypeList, ArgTypeListEllipsis, ArgCallList*/argCallListSlice, ReturnArgTypeList, ReturnArgNameList, ReturnArgList, IsVariadic, the call-list wrappers, ReturnStatement, HasParams, HasReturns, AcceptsContext, ReturnsError; Param.Name, TypeString, TypeStringEllipsis, TypeStringVariadicUnderlying, MethodArg, CallName; Interface.TypeConstraint, TypeInstantiation; Interfaces.ImplementsSomeMethod; NewData): each list is the join of one piece per parameter, result or type parameter, in order, built from that element's own name and type string with the documented accessor. That the offered type strings denote the same Go types (types.TypeString with the registry's qualifiers; Var.TypeString is trusted) is not decided.",
 	})
 	register(&propInfo{
-		id: "C02", patterns: []string{"./internal", "./template"},
+		id: "C02", patterns: []string{"./internal", "./template", "./template_funcs"},
 		trusted: genTrusted,
 		extra:   implementsPhase,
 		note:    "lemma-level: Registry.LookupInterface returns the complete interface of the looked-up object and errors on missing or non-interface objects; Generate builds one Method per method of that interface, in order, each from iface.Method(i); methodData reproduces parameter and result counts, order, variables and variadic-ness; ParsePackages never yields function-local types, so no interface is returned twice for that reason. Instance facts: for every non-generic interface of the corpus /verif/corpus/m/ifaces.go and both built-in templates, go/types confirms that the freshly generated *Mock implements the interface (a sample over interfaces). That the templates render what the data model says for interfaces outside the corpus is not decided.",
